@@ -214,7 +214,7 @@ def words_inert(s):
     return True
 
 
-@lemma('W4.meaning', 'C10', quick=by('c1', list(W4_ALPH), by('c2', list(W4_ALPH), [{'k': 3}])), thorough=by('c1', list(W4_ALPH), by('c2', list(W4_ALPH), [{'k': 3}, {'k': 4, 'timeout': 3000}])),
+@lemma('W4.meaning', 'C10', quick=by('c1', list('a>-'), by('c2', list(W4_ALPH), [{'k': 3}])), thorough=by('c1', list(W4_ALPH), by('c2', list(W4_ALPH), [{'k': 3}, {'k': 4, 'timeout': 3000}])),
        timeout=900, per_path=120,
        covers=['markdown_renderer.py:MarkdownRenderer.render', 'markdown_renderer.py:MarkdownRenderer.fragments_to_lines',
                'markdown_renderer.py:MarkdownRenderer.render_quote', 'markdown_renderer.py:MarkdownRenderer.render_list_item'],
